@@ -405,14 +405,14 @@ where
         + LossyFrom<U0F128>,
 {
     //wraparound
-    while angle > PI {
-        #[cfg(substrate_fixed_verif)]
-        crate::verif_hook::tick();
+    if angle > PI || angle < -PI {
+        // same result as subtracting or adding 2 pi repeatedly, in constant time
+        angle %= T::lossy_from(TWO_PI);
+    }
+    if angle > PI {
         angle -= T::lossy_from(TWO_PI);
     }
-    while angle < -PI {
-        #[cfg(substrate_fixed_verif)]
-        crate::verif_hook::tick();
+    if angle < -PI {
         angle += T::lossy_from(TWO_PI);
     }
     //mirror
